@@ -138,7 +138,9 @@ type c19world struct {
 	creates []*c19create
 	deletes []*c19delete
 	lookups []*c19lookup
-	hist    []string
+	// call stamps of cleanup-expired operations (they may delete mappings of any name)
+	cleanupCalls []int64
+	hist         []string
 	uniq    int
 	faulty  bool // a fault mode is armed in this run
 }
@@ -398,6 +400,7 @@ func (cw *c19world) doCleanup(actor string, n *c19node) {
 	done := false
 	defer cw.crashGuard(n, &done)
 	w.Yield("c19.cleanup.call")
+	cw.cleanupCalls = append(cw.cleanupCalls, w.Stamp())
 	k, err := n.repo.CleanupExpiredMappings(w.Ctx)
 	done = true
 	cw.logf("%s@n%d cleanup-expired -> %d %v", actor, n.ix+1, k, err)
@@ -544,7 +547,7 @@ func init() {
 			"All operations are interleaved at statement granularity inside the anchored files. A run is non-trivial when two operations of different actors on one name overlapped in time, or a name changed hands (a create succeeded after a successful delete), or a lookup ran against a name whose mapping had been deleted/deactivated/expired, or a fault fired; distinct = distinct schedule hash among those.",
 		Real: []string{"internal/cloud/repos HTTPDomainMappingRepository (create/delete/update/lookup/cleanup)", "internal/app/server HTTPDomainRepositoryAdapter", "internal/command HTTPDomainCreate/Delete/List handlers", "internal/httpservice DomainRegistry", "internal/httpservice/modules/domainproxy lookupMapping + extractDomain (via export overlay)", "internal/cloud/repos PortMappingRepo.GetPortMappingByDomain/CreatePortMapping/DeletePortMapping (third lookup source)", "internal/core/storage/hybrid with the default prefix configuration", "internal/core/storage/memory and redis backends (redis over miniredis in the bubble)"},
 		Stub: []string{"CloudControlAPI: only GetPortMappingByDomain, delegating to the real PortMappingRepo on the node's storage", "management API create/delete of a legacy HTTP port mapping: the three effects of handlers_mapping.go (registry availability check, repo create, registry register / repo delete, registry unregister) are performed by the harness", "persistent tier: simstore.Persist map", "transport and session layer: handlers are invoked directly with an authenticated CommandContext"},
-		Assumptions: []string{"domain names are compared case-insensitively (RFC 4343); a Host header designates a registered name after removing one :port, lower-casing and removing one trailing dot; IP literals, empty hosts and hosts with two colons designate none", "rejecting a request is always allowed by the property; only positive routing answers are judged", "an expired but undeleted mapping may or may not still block the name (don't care)", "the expiry instant the client is told (requested ttl, or the expires_at of the response for the server default) is the reference, with a 5 s don't-care band", "when two successful creates of one run were handed the same mapping id, or a name's index answers with the id of another name's mapping, every consequence is filed under the class reused-mapping-ids (one signature per oracle) so that this root cause does not hide the others; a fired fault is part of the class (suffix after-storage-fault) except for the legacy/case-variant classes", "an operation that failed with an injected storage error or was cut by a crash has an indeterminate outcome; liveness clauses (a free name can be claimed, the owner can delete) are checked only in runs without an armed fault"},
+		Assumptions: []string{"domain names are compared case-insensitively (RFC 4343); a Host header designates a registered name after removing one :port, lower-casing and removing one trailing dot; IP literals, empty hosts and hosts with two colons designate none", "rejecting a request is always allowed by the property; only positive routing answers are judged", "an expired but undeleted mapping may or may not still block the name (don't care)", "the expiry instant the client is told (requested ttl, or the expires_at of the response for the server default) is the reference, with a 5 s don't-care band", "when two successful creates of one run were handed the same mapping id, or a name's index answers with the id of another name's mapping, every consequence is filed under the class reused-mapping-ids (one signature per oracle) so that this root cause does not hide the others; a fired fault is part of the class (suffix after-storage-fault) except for the legacy/case-variant classes", "two successful claims of one name with no delete or cleanup request for any mapping of that name before the second one are filed as claim-lost-without-any-delete (never under the stale-delete or reused-id classes, which cannot free an index without a delete)", "an operation that failed with an injected storage error or was cut by a crash has an indeterminate outcome; liveness clauses (a free name can be claimed, the owner can delete) are checked only in runs without an armed fault"},
 		Opt:         func(tier string) simrt.Options { return simrt.Options{MaxSteps: 600000} },
 		Run:         c19Run,
 	})
@@ -828,6 +831,27 @@ func (cw *c19world) releasedPossibly(x *c19create, stamp int64) bool {
 	return false
 }
 
+// deleteActivity: some delete (by anyone, whatever its outcome) of an id handed out for this name, or a
+// cleanup of expired mappings, was invoked before stamp.
+func (cw *c19world) deleteActivity(name string, stamp int64) bool {
+	for _, c := range cw.cleanupCalls {
+		if c < stamp {
+			return true
+		}
+	}
+	for _, d := range cw.deletes {
+		if d.call >= stamp {
+			continue
+		}
+		for _, x := range cw.creates {
+			if x.name == name && x.id != "" && x.id == d.id && x.legacy == d.legacy {
+				return true
+			}
+		}
+	}
+	return false
+}
+
 func (cw *c19world) dupIDs() bool {
 	for i, x := range cw.creates {
 		if !x.ok || x.legacy {
@@ -888,7 +912,8 @@ func (cw *c19world) judge(nnames int) {
 	sig := func(oracle, kind, detail string) string {
 		// (legacy-source and case-variant classes have a cause of their own and keep their class)
 		independent := strings.Contains(detail, "legacy") || strings.Contains(detail, "case-variant")
-		if reused && !independent {
+		// reusing an id overwrites a record but never frees a name's index, so it cannot explain a lost claim either
+		if reused && !independent && !strings.HasPrefix(detail, "claim-lost") {
 			return "C19:" + oracle + ":" + kind + ":reused-mapping-ids"
 		}
 		s := "C19:" + oracle + ":" + kind
@@ -984,6 +1009,12 @@ overlapScan:
 				class := "sequential"
 				if c19overlap(x.call, x.ret, y.call, y.ret) {
 					class = "concurrent"
+				}
+				if !cw.deleteActivity(name, y.ret) {
+					// nobody had asked to delete (or clean up) any mapping of this name before the second claim
+					// succeeded: the first owner's claim was destroyed by something that is not a delete at all
+					// (e.g. a read path with a repairing side effect). Stale or repeated deletes cannot explain it.
+					class = "claim-lost-without-any-delete"
 				}
 				switch {
 				case x.legacy && y.legacy:
